@@ -1482,7 +1482,7 @@ def run(ctx):
                      'followed by `(` after the parentheses of its parameter list were removed (it then begins a name)',
                      'binder text section (props/c06bind.py): the flags the real parser sets are read off its own trace (the flag-setting actions between two token reads); '
                      'texts with a pair of parentheses removed in which `function` begins an unbound name are compared on token stream and flags only (bind_skipped_unbound_name); '
-                     'the iteration variable `item` is the known finding item-iteration-variable (side condition names_all of the theorem)'],
+                     'the iteration / quantified variable `item` is an ordinary case (bind_item_variable_cases; the former known finding item-iteration-variable is repaired in /repo)'],
         trusted=['translators/lalr2coq.py (reads the const arrays, TokenType and the reduce arms of lalr.rs by stable syntax)',
                  'translators/lalr2coq.py reading of feel-grammar/src/feel.y (rules, mid-rule actions numbered as bison does; cross-checked against YY_R2, the reduce arms and their comments in lalr.rs, and again in coq/C06/ActionsProofs.v against YY_R1/YY_R2)',
                  'harness sub-command dv ptrace (the parser run with its own trace switched on: token values in Debug form and action names, read by props/c06bind.py)',
@@ -1516,5 +1516,5 @@ def replay(ctx, path):
 
 MANIFEST = dict(
     technique='Coq proof (round trip of a precedence-climbing Spec parser for all trees; finite theorem on the LALR tables regenerated from lalr.rs every run) with parser/model correspondence',
-    text='coq/Props/C06.v: the committed LALR tables, translated from feel-parser/src/lalr.rs on every run, are proved (vm_compute, bound stated) to build on every ordered pair and triple of operators the tree the Spec parser dictates; the Spec theorems hold for all trees of the operator fragment (no bound): both renderings round-trip (C06_roundtrip_*_tokens), and every pair of parentheses of the minimal rendering is needed (C06_needed_paren / C06_needed_paren_at / C06_all_needed, from the counting soundness invariant C06_min_rendering_minimal: any token list that parses to t has at least the parentheses of render_min t); string-literal decoding has its own model. EXTENDED language (coq/C06/ModelExt.v: operator fragment + if, for .. in .. [, ..] return, some / every .. satisfies, function (params) body, lists, contexts, ranges with atom endpoints in all nine bracket combinations, invocations with positional and named argument lists; a precedence-climbing Spec parser compared with the real parser on every run by props/c06ext.py: the Coq renderings, minimal / full / each pair of parentheses removed, of every open construct in every operand position and of random trees): C06_roundtrip_min_ext / C06_roundtrip_full_ext hold for ALL trees (no bound on depth or list length), erender_min parenthesises an open construct (if / for / some / every / function) exactly where a continuing token follows (left of an operator, not right: C06_open_left_needed_ext, C06_open_right_bare_ext) and any other operand exactly where its level is below the level of its position; C06_needed_paren_ext / _split_ext / _at_ext: every pair of the minimal rendering is needed (counting invariant C06_min_rendering_minimal_ext, with the flag `a continuing token follows` in the invariant); C06_fuel_suffices_ext; C06_ext_conservative (on the operator fragment the extended renderers and parser agree with the old ones); text level C06_text_roundtrip_*_ext / C06_parse_text_unlex_ext / C06_text_needed_paren_ext for the token lists without for / some / every / function, C06_text_roundtrip_ext_partial for every tree without such a node (binder_free) (these keywords are outside C06_lex_unlex). TEXT LEVEL FOR ALL TREES, binders and function definitions included (coq/C06/LexBind.v: lex_b = next_token iterated with the flag policy of the binders, a pushdown over the delivered tokens -- open brackets, open for / some / every headers, the parameter list of a function definition, ranges with reversed or mixed brackets recognised as opener atom .. atom closer -- by which a comma sets till_in inside a header and a colon sets type_name inside a parameter list; coq/C06/ExtLexAll.v: parse_text_all reads `name in` where a binding is expected as a binding): C06_lex_b_unlex[_layout] (every token list printable in the extended sense is read back from its text; layouts: white space only behind `function` and behind the variable of a binding), C06_track_renderings (for every tree and both renderings the pushdown expects a binding exactly at the bindings and a type exactly behind the colon of a typed parameter), C06_text_roundtrip_min_all / _full_all / _min_layout_all / _full_layout_all (the text of both renderings of EVERY tree of the extended language parses back to the tree; side conditions: scope keys single words that are no keywords, atoms written as literals or scope keys, names in range, outside between-lower-bound-and, the variable of a binding is not `item`), C06_text_needed_paren_all, C06_text_item_variable_refuted (`for item in b return c in d`: known finding item-iteration-variable, the model predicts the syntax error). That the policy of lex_b is the one the real parser applies is checked on every run by props/c06bind.py: for the Coq-printed texts of trees with binders (minimal, full, each pair of parentheses removed, generated layouts) the token stream the real lexer delivers when driven by the real parser and the flag-setting actions the parser runs between two token reads (both read off the trace the parser itself prints) equal the stream of the model and the flags its policy sets, and parse_text_all = the tree of the real parser. Text level (coq/C06/Lexer.v = model of Lexer::next_token iterated with its four flags; C06_lex_unlex[_layout]: it reads back every printable token list from the printed text, one space or any layout of the modelled grammar between tokens; C06_text_roundtrip_min/full[_layout]: parse_text = lexer model + Spec parser gives the tree back from the TEXT of both renderings, for all trees outside the known finding between-lower-bound-and, C06_text_between_lower_and_refuted for that class); the token stream of the real lexer (hook verif_tokens, dv tokens) is compared with the model token by token (kind, value, position, flags) on printable lists in every layout, every token kind x every white space character / comment, and adversarial glued texts with explicit flag settings. The real lexer, driver and actions are tied to the Spec by parsing generated trees of the whole language in minimal / full / one-pair-removed renderings under token-preserving layouts and comparing AstNode trees. coq/C06/Actions.v models the whole parser on token lists (the loop of Parser::parse over the regenerated tables with all 90 reduce actions of parser.rs, selected by the action names read from lalr.rs): every generated case of every construct and directed inputs for types, external bodies, date and time literals and the six entry points are run through it and compared node by node with the real parser. C06_actions_stack_safe: for every rule of feel.y (read with the tables on every run) the action of the rule, on every concrete node stack whose top has the kinds the right-hand side symbols are declared to leave, returns Ok and leaves what the left-hand side declares (no pop error, no index panic, no dropped node; abstract actions on node kinds proved sound for all stacks + sweep over the 150 rules); C06_parse_full_safe lifts this to whole parses: on every list of lexer-shaped tokens (token value = the one of the terminal; the check evaluates this test on every token list it feeds to the model) the parser model never raises a pop error, never indexes out of bounds, never accepts with other than one node -- by an invariant over the LR automaton read off the regenerated tables (transitions closed under the moves of the driver; the right-hand side of every reducible rule found on every path: the LR invariant as a finite check). C06_list_roundtrip / C06_nested_lists_roundtrip: lists of every length and nesting round-trip through parse_full (induction through the list_tail actions over the regenerated tables).',
+    text='coq/Props/C06.v: the committed LALR tables, translated from feel-parser/src/lalr.rs on every run, are proved (vm_compute, bound stated) to build on every ordered pair and triple of operators the tree the Spec parser dictates; the Spec theorems hold for all trees of the operator fragment (no bound): both renderings round-trip (C06_roundtrip_*_tokens), and every pair of parentheses of the minimal rendering is needed (C06_needed_paren / C06_needed_paren_at / C06_all_needed, from the counting soundness invariant C06_min_rendering_minimal: any token list that parses to t has at least the parentheses of render_min t); string-literal decoding has its own model. EXTENDED language (coq/C06/ModelExt.v: operator fragment + if, for .. in .. [, ..] return, some / every .. satisfies, function (params) body, lists, contexts, ranges with atom endpoints in all nine bracket combinations, invocations with positional and named argument lists; a precedence-climbing Spec parser compared with the real parser on every run by props/c06ext.py: the Coq renderings, minimal / full / each pair of parentheses removed, of every open construct in every operand position and of random trees): C06_roundtrip_min_ext / C06_roundtrip_full_ext hold for ALL trees (no bound on depth or list length), erender_min parenthesises an open construct (if / for / some / every / function) exactly where a continuing token follows (left of an operator, not right: C06_open_left_needed_ext, C06_open_right_bare_ext) and any other operand exactly where its level is below the level of its position; C06_needed_paren_ext / _split_ext / _at_ext: every pair of the minimal rendering is needed (counting invariant C06_min_rendering_minimal_ext, with the flag `a continuing token follows` in the invariant); C06_fuel_suffices_ext; C06_ext_conservative (on the operator fragment the extended renderers and parser agree with the old ones); text level C06_text_roundtrip_*_ext / C06_parse_text_unlex_ext / C06_text_needed_paren_ext for the token lists without for / some / every / function, C06_text_roundtrip_ext_partial for every tree without such a node (binder_free) (these keywords are outside C06_lex_unlex). TEXT LEVEL FOR ALL TREES, binders and function definitions included (coq/C06/LexBind.v: lex_b = next_token iterated with the flag policy of the binders, a pushdown over the delivered tokens -- open brackets, open for / some / every headers, the parameter list of a function definition, ranges with reversed or mixed brackets recognised as opener atom .. atom closer -- by which a comma sets till_in inside a header and a colon sets type_name inside a parameter list; coq/C06/ExtLexAll.v: parse_text_all reads `name in` where a binding is expected as a binding): C06_lex_b_unlex[_layout] (every token list printable in the extended sense is read back from its text; layouts: white space only behind `function` and behind the variable of a binding), C06_track_renderings (for every tree and both renderings the pushdown expects a binding exactly at the bindings and a type exactly behind the colon of a typed parameter), C06_text_roundtrip_min_all / _full_all / _min_layout_all / _full_layout_all (the text of both renderings of EVERY tree of the extended language parses back to the tree; side conditions: scope keys single words that are no keywords, atoms written as literals or scope keys, names in range, outside between-lower-bound-and; nothing about the variable of a binding: `item` included since the repair of consume_name), C06_text_needed_paren_all, C06_text_item_variable_orig_refuted (`for item in b return c in d`: with consume_name as it was, name_token_orig, the text had no tree -- the former known finding item-iteration-variable; the repaired lexer reads the tree back). That the policy of lex_b is the one the real parser applies is checked on every run by props/c06bind.py: for the Coq-printed texts of trees with binders (minimal, full, each pair of parentheses removed, generated layouts) the token stream the real lexer delivers when driven by the real parser and the flag-setting actions the parser runs between two token reads (both read off the trace the parser itself prints) equal the stream of the model and the flags its policy sets, and parse_text_all = the tree of the real parser. Text level (coq/C06/Lexer.v = model of Lexer::next_token iterated with its four flags; C06_lex_unlex[_layout]: it reads back every printable token list from the printed text, one space or any layout of the modelled grammar between tokens; C06_text_roundtrip_min/full[_layout]: parse_text = lexer model + Spec parser gives the tree back from the TEXT of both renderings, for all trees outside the known finding between-lower-bound-and, C06_text_between_lower_and_refuted for that class); the token stream of the real lexer (hook verif_tokens, dv tokens) is compared with the model token by token (kind, value, position, flags) on printable lists in every layout, every token kind x every white space character / comment, and adversarial glued texts with explicit flag settings. The real lexer, driver and actions are tied to the Spec by parsing generated trees of the whole language in minimal / full / one-pair-removed renderings under token-preserving layouts and comparing AstNode trees. coq/C06/Actions.v models the whole parser on token lists (the loop of Parser::parse over the regenerated tables with all 90 reduce actions of parser.rs, selected by the action names read from lalr.rs): every generated case of every construct and directed inputs for types, external bodies, date and time literals and the six entry points are run through it and compared node by node with the real parser. C06_actions_stack_safe: for every rule of feel.y (read with the tables on every run) the action of the rule, on every concrete node stack whose top has the kinds the right-hand side symbols are declared to leave, returns Ok and leaves what the left-hand side declares (no pop error, no index panic, no dropped node; abstract actions on node kinds proved sound for all stacks + sweep over the 150 rules); C06_parse_full_safe lifts this to whole parses: on every list of lexer-shaped tokens (token value = the one of the terminal; the check evaluates this test on every token list it feeds to the model) the parser model never raises a pop error, never indexes out of bounds, never accepts with other than one node -- by an invariant over the LR automaton read off the regenerated tables (transitions closed under the moves of the driver; the right-hand side of every reducible rule found on every path: the LR invariant as a finite check). C06_list_roundtrip / C06_nested_lists_roundtrip: lists of every length and nesting round-trip through parse_full (induction through the list_tail actions over the regenerated tables).',
     note='Trusted: Coq kernel + vm_compute, lalr2coq.py, the Spec reading of feel.y lines 73-90, harness dv ast, Python renderer for unary tests / `x in (a, b)` / string keys (outside the extended Spec; binders, collections, ranges and argument lists are rendered by the Coq renderers of the extended Spec as well), the reading of feel.y by lalr2coq.py (checked against YY_R1/YY_R2 and the reduce arms in Coq), the declared stack effects of the grammar symbols (checked by the sweep), the Python tokeniser feeding the full model. The grammar names of the terminals are the TokenType names in upper snake case (a wrong name fails the finite automaton check).')
